@@ -4,5 +4,5 @@ P=$(realpath "$1"); shift
 cd /repo && git apply "$P" || { echo "patch does not apply"; exit 2; }
 cd /verif
 for id in "$@"; do python3 tools/check.py $id --tier quick 2>/dev/null | grep -E "^(VIOLATION|KNOWN|property=)" ; done
-git -C /repo checkout -- .
+git -C /repo checkout -- . && git -C /repo clean -fdq
 git -C /repo status --short | head -3
